@@ -58,7 +58,9 @@ def box_exprs(cls, quick):
     elif cls == "tensor":
         out += ["Box('a', Dim(2), Dim(2), [x, y, 1, x * y])", "Box('b', Dim(2), Dim(3), [x, 0, 1, y, x + y, 2])",
                 "Box('c', Dim(1), Dim(2), [x ** 2, 1j * y])", "Box('a', Dim(2), Dim(2), [x, y, 1, x * y]).dagger()",
-                "Box('s', Dim(1), Dim(1), [x + 1j * y])", "Box('b', Dim(2), Dim(3), [x, 0, 1, y, x + y, 2]).dagger()"]
+                "Box('s', Dim(1), Dim(1), [x + 1j * y])", "Box('b', Dim(2), Dim(3), [x, 0, 1, y, x + y, 2]).dagger()",
+                "Box('ox', Dim(2), Dim(2), [x, 1, 0, 2 * x])", "Box('oy', Dim(2), Dim(2), [y, 1, 0, y ** 2])",
+                "Box('ox', Dim(2), Dim(2), [x, 1, 0, 2 * x]).dagger()"]
     elif cls == "zx":
         for e in es[:5]:
             out += ["Z(1, 2, %s)" % e, "X(2, 1, %s)" % e, "Z(1, 1, %s).dagger()" % e]
